@@ -24,5 +24,5 @@ def run(tier, seed):
 
 
 def replay(path, seed):
-    print("replay: the witness contains grammar + text; re-run ./check C09 with the same VERIF_SEED")
-    return 0
+    from ..replay_lex import replay as r
+    return r("C09", path)
